@@ -53,6 +53,8 @@ impl BufferedDisplay {
     }
 
     fn try_output(&self) -> Option<RwLockWriteGuard<'_, Vec<u8>>> {
+        #[cfg(endorpersand_lc3_ensemble_verif)]
+        crate::verif::lock_probe(crate::verif::Device::Display);
         match self.buffer.try_write() {
             Ok(g) => Some(g),
             Err(TryLockError::Poisoned(e)) => Some(e.into_inner()),
